@@ -457,6 +457,8 @@ def run(ck, facts):
     c08.js_result_buffer_rules(ck, "R5", facts)
     sub3 = C.SubCheck(ck, "R5", "", ["R5"], key_re=r"[Oo]ption")
     c08.run(sub3, facts)
+    # size / align / offset handed to the option readers and writers at the positions the runtime declares them (C08.R8)
+    c08.run(C.SubCheck(ck, "R5", "", ["R8"], key_re=r"[Oo]ption"), facts)
 
 
 def _walk_val(v):
